@@ -6,6 +6,7 @@ import (
 	stdjson "encoding/json"
 	"fmt"
 	"io"
+	"math/big"
 	"reflect"
 	"runtime"
 	"strings"
@@ -85,9 +86,20 @@ var targets = []func() any{
 
 // ------------------------------------------------------------------ dumping and pointer collection
 
+var bigIntPtrType = reflect.TypeOf((*big.Int)(nil))
+
 func dump(sb *hw, v reflect.Value, depth int) {
 	if depth > 40 || !v.IsValid() {
 		sb.WriteString("<>")
+		return
+	}
+	if v.Type() == bigIntPtrType && v.CanInterface() {
+		// UseBigInt results: by value, not through the unexported fields
+		if b := v.Interface().(*big.Int); b != nil {
+			sb.WriteString("big:" + b.String() + ";")
+		} else {
+			sb.WriteString("nil;")
+		}
 		return
 	}
 	switch v.Kind() {
@@ -672,7 +684,11 @@ func genDocs(rt *rapid.T, target int) [][]byte {
 }
 
 var parseFlagSets = []uint32{0, 0, 0, uint32(segjson.DontCopyString), uint32(segjson.DontCopyNumber), uint32(segjson.DontCopyRawMessage), uint32(segjson.ZeroCopy),
-	uint32(segjson.UseNumber), uint32(segjson.ZeroCopy | segjson.UseNumber), uint32(segjson.DontMatchCaseInsensitiveStructFields), uint32(segjson.DisallowUnknownFields | segjson.DontCopyString)}
+	uint32(segjson.UseNumber), uint32(segjson.ZeroCopy | segjson.UseNumber), uint32(segjson.DontMatchCaseInsensitiveStructFields), uint32(segjson.DisallowUnknownFields | segjson.DontCopyString),
+	// the number-typing flags choose other code paths for numbers decoded into interfaces; combined with
+	// UseNumber the literal text is what is stored (copied: none of these sets lends the input)
+	uint32(segjson.UseInt64), uint32(segjson.UseUint64), uint32(segjson.UseBigInt), uint32(segjson.UseNumber | segjson.UseInt64), uint32(segjson.UseNumber | segjson.UseUint64),
+	uint32(segjson.UseNumber | segjson.UseBigInt), uint32(segjson.UseNumber | segjson.UseInt64 | segjson.UseUint64 | segjson.UseBigInt), uint32(segjson.UseNumber | segjson.UseInt64 | segjson.DisallowUnknownFields)}
 
 func TestHistories(t *testing.T) {
 	evid.Check(t, "Histories", 400, func(rt *rapid.T) {
